@@ -80,6 +80,14 @@ class World:
     # -- resolver --------------------------------------------------------
     def getaddrinfo(self, host, port, family=0, type=0, proto=0, flags=0):
         self.sched_point('resolve')
+        if isinstance(host, str) and host not in self.resolver and _ip_family(host) is None:
+            # the real getaddrinfo() encodes a host name with the IDNA codec first: an empty label ("a..b") or one of more than 63
+            # characters raises UnicodeError there - not a gaierror, and not an OSError
+            try:
+                host.encode('idna')
+            except UnicodeError:
+                self.log(ev='resolve', host=host, port=port, family=int(family), ok=False)
+                raise
         ans = None
         if host in self.resolver:
             ans = self.resolver[host]
